@@ -74,6 +74,8 @@ def gen_case(rng, idx):
              definite="pd", npseed=rng.randrange(2 ** 31))
     if rng.random() < 0.12:
         c["alias_xb"] = True          # the caller passes the SAME array as b and as x (x0 = b)
+    if rng.random() < 0.18 and c["definite"] == "pd":
+        c["gscale"] = 10.0 ** rng.choice([-12, -10, -8, -6, -4, 4, 8])
     r = rng.random()
     if r < 0.06:
         c["definite"] = "negative"
@@ -132,6 +134,9 @@ def build(c):
     if "b" in c:             # explicit data (corpus)
         b = (np.array(c["b"][0]) + (1j * np.array(c["b"][1]) if cplx else 0)).reshape(n, 1)
         x0 = np.zeros((n, 1))
+    if c.get("gscale"):     # data of very small / large magnitude: CG is homogeneous of degree 1 in (b, x0)
+        b = b * c["gscale"]
+        x0 = x0 * c["gscale"]
     if c.get("alias_xb"):
         x0 = b.copy()
     tol = 0.0
@@ -160,6 +165,10 @@ def corpus_cases():
         out.append(dict(base, n=3, max_iter=2, npseed=30 + k, pre=pre, cplx=True, form="function"))
         out.append(dict(base, n=4, max_iter=1, npseed=40 + k, pre=pre))
     out.append(dict(base, n=5, max_iter=8, npseed=50, alias_xb=True))
+    # tiny / huge data: every formula of the recurrence is scale free
+    out.append(dict(base, n=5, max_iter=8, npseed=52, gscale=1e-10, x0k="random"))
+    out.append(dict(base, n=4, max_iter=7, npseed=53, gscale=1e-8, cplx=True, pre="spd", form="function"))
+    out.append(dict(base, n=4, max_iter=7, npseed=54, gscale=1e8, pre="jacobi"))
     # mixed precision: float32 / complex64 x0 with a float64 / complex128 system
     out.append(dict(base, n=4, max_iter=7, npseed=70, mixed=True, x0k="random"))
     out.append(dict(base, n=3, max_iter=6, npseed=71, mixed=True, cplx=True, form="function", x0k="random"))
